@@ -407,12 +407,21 @@ func getMethodMapName(method core_domain.CodeFunction) string {
 }
 
 func (s *JavaFullListener) EnterCreator(ctx *parser.CreatorContext) {
-	variableName := ctx.GetParent().GetParent().GetChild(0).(antlr.ParseTree).GetText()
+	// `x = new Foo()`: remember the created type for x. A creation in any other position
+	// (an argument, an initializer, a receiver) says nothing about its left neighbour.
+	variableName := ""
+	if assign, ok := ctx.GetParent().GetParent().(*parser.ExpressionContext); ok {
+		if assign.GetBop() != nil && assign.GetBop().GetText() == "=" && assign.GetChildCount() == 3 && assign.GetChild(2) == ctx.GetParent() {
+			variableName = assign.GetChild(0).(antlr.ParseTree).GetText()
+		}
+	}
 	allIdentifiers := ctx.CreatedName().(*parser.CreatedNameContext).AllIdentifier()
 
 	for _, identifier := range allIdentifiers {
 		createdName := identifier.GetText()
-		localVars[variableName] = createdName
+		if variableName != "" {
+			localVars[variableName] = createdName
+		}
 
 		buildCreatorCall(createdName, ctx)
 
